@@ -160,6 +160,107 @@ theorem response_wellframed (rq : Req) (prog : List Op) (hrq : reqOK rq = true)
       | .ok (_, rest) => rest = [] | .incomplete => s.conn.closed = true | .malformed => False
     rw [h]; exact hc
 
+/-! ### handler-set `Transfer-Encoding` — known finding TE1 (`known_findings/C02.json`)
+
+The property statement quantifies over *any* set/add header op, `opOK` does not: it excludes the name
+`Transfer-Encoding`.  On the code as it is the exclusion is necessary — `write_headers` writes its own
+`Transfer-Encoding: chunked` over the handler's when it chunk-codes the body, but passes the handler's through when
+it does not (Content-Length present, HTTP/1.0, HEAD, 1xx/204/304): the response then announces a coding the body
+does not have.  Hence the split `_full` (statement over all token names) / `_partial` (no handler-set
+Transfer-Encoding; = `response_wellframed`) / `_refuted` (witness `set_header("Transfer-Encoding","chunked");
+write("a")`: `Transfer-Encoding: chunked` + `Content-Length: 1` + raw body — the handler tornado's own test suite
+uses to produce an invalid response, `simple_httpclient_test.ChunkedWithContentLengthTest`, which is why this is
+recorded rather than repaired). -/
+
+/-- `opOK` without the `Transfer-Encoding` exclusion: three-digit statuses and token header names — the domain
+    the property statement quantifies over (non-token names are C07's subject) -/
+def opOKfull : Op → Bool
+  | .setStatus c => decide (100 ≤ c) && decide (c ≤ 999)
+  | .setHeader n _ => C06.isToken (C06.normalize n)
+  | .addHeader n _ => C06.isToken (C06.normalize n)
+  | _ => true
+
+/-- the op puts a `Transfer-Encoding` value into the handler's header map -/
+def setsTE : Op → Bool
+  | .setHeader n _ => C06.normalize n == nTE
+  | .addHeader n _ => C06.normalize n == nTE
+  | _ => false
+
+theorem opOK_eq (op : Op) : opOK op = (opOKfull op && !setsTE op) := by
+  cases op <;> simp [opOK, opOKfull, setsTE, bne]
+
+/-- the goal as the property states it: every program over token header names, `Transfer-Encoding` included -/
+def response_wellframed_full : Prop :=
+  ∀ (rq : Req) (prog : List Op), reqOK rq = true → (∀ op ∈ prog, opOKfull op = true) →
+    match clientParse (rq.method == .head) (wire (run rq prog).conn) (run rq prog).conn.closed with
+    | .ok (_, rest) => rest = []
+    | .incomplete => (run rq prog).conn.closed = true
+    | .malformed => False
+
+/-- … holds for every program that does not set `Transfer-Encoding` itself (decidable side condition `setsTE`) -/
+theorem response_wellframed_partial (rq : Req) (prog : List Op) (hrq : reqOK rq = true)
+    (hops : ∀ op ∈ prog, opOKfull op = true) (hte : ∀ op ∈ prog, setsTE op = false) :
+    match clientParse (rq.method == .head) (wire (run rq prog).conn) (run rq prog).conn.closed with
+    | .ok (_, rest) => rest = []
+    | .incomplete => (run rq prog).conn.closed = true
+    | .malformed => False :=
+  response_wellframed rq prog hrq (fun op hop => by rw [opOK_eq, hops op hop, hte op hop]; rfl)
+
+/-- the reviewer's witness: `GET / HTTP/1.1`, `set_header("Transfer-Encoding","chunked"); write("a")` -/
+def teWitness : List Op := [.setHeader nTE vChunked, .write [97]]
+
+set_option maxRecDepth 8192 in
+theorem teWitness_malformed :
+    clientParse false (wire (run { method := .get, v11 := true, conn := .absent } teWitness).conn)
+      (run { method := .get, v11 := true, conn := .absent } teWitness).conn.closed = .malformed := by decide
+
+set_option maxRecDepth 8192 in
+theorem teWitness_ok : ∀ op ∈ teWitness, opOKfull op = true := by decide
+
+set_option maxRecDepth 8192 in
+/-- … and fails without it: `GET / HTTP/1.1`, `set_header("Transfer-Encoding","chunked"); write("a")` — `finish()`
+    adds `Content-Length: 1`, `write_headers` therefore does not chunk-code and leaves the handler's
+    `Transfer-Encoding: chunked` in place; the strict client rejects the message (RFC 9112 §6.3: such a message
+    "ought to be handled as an error") -/
+theorem response_wellframed_refuted : ¬ response_wellframed_full := by
+  intro h
+  have h1 := h { method := .get, v11 := true, conn := .absent } teWitness (by decide) teWitness_ok
+  have e : (({ method := .get, v11 := true, conn := .absent } : Req).method == Method.head) = false := rfl
+  rw [e, teWitness_malformed] at h1
+  exact h1
+
+/-- the mechanism, at `write_headers`: the `Transfer-Encoding` value that is serialised is the connection's own
+    `chunked` exactly when it chunk-codes the body; otherwise whatever the handler put there survives -/
+theorem write_headers_transfer_encoding (rq : Req) (disc chunking : Bool) (code : Nat) (h : HMap) :
+    C06.dget nTE (finalHeaders rq disc chunking code h) = if chunking = true then some [vChunked] else C06.dget nTE h := by
+  have e1 : ∀ (b : Bool) (g : HMap) (v : C06.Str),
+      C06.dget nTE (if b = true then hset g nConn v else g) = C06.dget nTE g := by
+    intro b g v
+    cases b
+    · rfl
+    · simp only [if_true]; unfold hset; exact dget_dset_ne _ _ _ _ (by decide)
+  unfold finalHeaders
+  simp only []
+  cases chunking
+  · simp only [Bool.false_eq_true, if_false]
+    rw [e1, e1]
+  · simp only [if_true]
+    unfold hset
+    rw [norm_nTE, dget_dset_same]
+
+/-! non-vacuity: the side conditions of `_partial` hold for a program using every op kind, and the other faces of
+    the finding — a streamed response to an HTTP/1.0 request announces `chunked` / `gzip` over a raw body; on an
+    HTTP/1.1 connection that chunk-codes, the handler's value is overwritten and the response is well-formed -/
+example : ∀ op ∈ [Op.setStatus 404, .setHeader nCL [51], .addHeader nConn [97], .write [97], .flush, .finish none],
+    opOKfull op = true ∧ setsTE op = false := by decide
+set_option maxRecDepth 4096 in
+example : (clientParse false (wire (run { method := .get, v11 := false, conn := .absent }
+      [.addHeader nTE [103, 122, 105, 112], .write [97], .flush]).conn) true matches .malformed) = true := by decide
+set_option maxRecDepth 4096 in
+example : (clientParse false (wire (run { method := .get, v11 := true, conn := .absent }
+      [.setHeader nTE [103, 122, 105, 112], .write [97], .flush, .write [98]]).conn) false
+        matches .ok (⟨200, _, _, [97, 98], .chunked⟩, [])) = true := by decide
+
 /-- **HEAD / 1xx / 204 / 304 responses carry no body** (wire level): whatever the program writes, flushes or
     finishes with, the bytes on the wire are exactly the serialised head. -/
 theorem nobody_wire_is_head (rq : Req) (prog : List Op) (hrq : reqOK rq = true)
